@@ -302,7 +302,7 @@ class AlignmentCollector:
 
     def process_intergenic(self, alignment_storage, region):
         assignment_storage = []
-        if self.illumina_bam is not None:
+        if self.illumina_bam is not None and getattr(self.params, "splice_correction_strategy", None) != "none":
             corrector = IlluminaExonCorrector(self.chr_id, region[0], region[1], self.illumina_bam)
         else:
             corrector = VoidExonCorrector()
